@@ -8,6 +8,7 @@ import Mathlib.Tactic.NormNum
 import Mathlib.Algebra.Order.Field.Rat
 import Mathlib.Data.Rat.Cast.Order
 import Mathlib.Data.List.Nodup
+import Mathlib.Order.Monotone.Basic
 import Mathlib.Algebra.BigOperators.Group.List.Basic
 
 namespace Coba.C16
@@ -618,16 +619,16 @@ theorem normalise_valid (xs : List Rat) (hne : xs ≠ []) (hpos : ∀ x ∈ xs, 
     rw [sum_map_div]
     exact div_self (ne_of_gt hs)
 
-/-- the loop invariant of the repaired search: the multiplier it holds is always one for which
-`update` is defined (every new weight positive) -/
-theorem omdSearch_valid (ps etas losses : List Rat) (fuel : Nat) :
-    ∀ (l r : Rat) (cur : List Rat), omdRaw ps etas losses l = some cur →
-      omdRaw ps etas losses (omdSearch ps etas losses fuel l r cur).1 = some (omdSearch ps etas losses fuel l r cur).2 := by
+/-- whatever the carrier, midpoint, exit test and decision rule: the pair the loop holds is always
+`(l, probe l)` for some probed `l` -/
+theorem bisect_inv {F α} [DecidableEq F] (mid : F → F → F) (done : α → Bool) (probe : F → Option α) (tooBig : α → Bool)
+    (fuel : Nat) : ∀ (l r : F) (cur : α), probe l = some cur →
+      probe (bisect mid done probe tooBig fuel l r cur).1.1 = some (bisect mid done probe tooBig fuel l r cur).1.2 := by
   induction fuel with
-  | zero => intro l r cur h; simpa [omdSearch] using h
+  | zero => intro l r cur h; simpa [bisect] using h
   | succ n ih =>
     intro l r cur h
-    simp only [omdSearch]
+    simp only [bisect]
     split
     · exact h
     · split
@@ -638,6 +639,47 @@ theorem omdSearch_valid (ps etas losses : List Rat) (fuel : Nat) :
           split
           · exact ih l _ cur h
           · exact ih _ r xs hxs
+
+/-- the loop invariant of the repaired search: the multiplier it holds is always one for which
+`update` is defined (every new weight positive) -/
+theorem omdSearch_valid (ps etas losses : List Rat) (fuel : Nat) :
+    ∀ (l r : Rat) (cur : List Rat), omdRaw ps etas losses l = some cur →
+      omdRaw ps etas losses (omdSearch ps etas losses fuel l r cur).1 = some (omdSearch ps etas losses fuel l r cur).2 := by
+  intro l r cur h
+  exact bisect_inv _ _ _ _ fuel l r cur h
+
+/-- **termination**: over any linearly ordered carrier with a strictly monotone rank into ℕ (IEEE
+doubles ordered by value: the number of doubles below), with ANY midpoint function that stays in
+the bracket, ANY exit test, probe and decision rule, the loop leaves through one of its own exits
+within `rank r - rank l + 1` iterations: a midpoint that is neither end lies strictly between them,
+so the number of carrier values inside the bracket strictly decreases. -/
+theorem bisect_halts {F α} [LinearOrder F] (mid : F → F → F) (done : α → Bool) (probe : F → Option α) (tooBig : α → Bool)
+    (rank : F → Nat) (hrank : StrictMono rank) (hmid : ∀ l r, l ≤ r → l ≤ mid l r ∧ mid l r ≤ r) (fuel : Nat) :
+    ∀ (l r : F) (cur : α), l ≤ r → rank r - rank l < fuel → (bisect mid done probe tooBig fuel l r cur).2 = true := by
+  induction fuel with
+  | zero => intro l r cur _ h; omega
+  | succ n ih =>
+    intro l r cur hlr hfuel
+    simp only [bisect]
+    split
+    · rfl
+    · split
+      · rfl
+      · rename_i hx
+        have hx' : ¬ (mid l r = l) ∧ ¬ (mid l r = r) := by
+          constructor
+          · intro h; exact hx (Or.inl h)
+          · intro h; exact hx (Or.inr h)
+        obtain ⟨h1, h2⟩ := hmid l r hlr
+        have hl : l < mid l r := lt_of_le_of_ne h1 (Ne.symm hx'.1)
+        have hr : mid l r < r := lt_of_le_of_ne h2 hx'.2
+        have rl := hrank hl
+        have rr := hrank hr
+        split
+        · exact ih l _ cur h1 (by omega)
+        · split
+          · exact ih l _ cur h1 (by omega)
+          · exact ih _ r _ h2 (by omega)
 
 theorem omdLambda_valid (ps etas losses : List Rat) (hp : ∀ p ∈ ps, 0 < p) (he : ∀ e ∈ etas, 0 ≤ e) :
     ∃ raw, omdRaw ps etas losses (omdLambda ps etas losses) = some raw := by
@@ -932,5 +974,360 @@ theorem omd_shortcut_witness :
 theorem Corral.Inv.sum_tol (c : Corral) (h : c.Inv) :
     |c.ps.sum - 1| ≤ 1 / 10000 ∧ |c.pbars.sum - 1| ≤ 1 / 10000 := by
   rw [h.ps_sum, h.pbars_sum]; norm_num
+
+open Coba.C05 (next)
+
+/-! ### nested compositions -/
+
+/-- what a base learner guarantees to the Corral above it -/
+structure Base.Laws (B : Base) where
+  inv : B.σ → Prop
+  /-- it can be offered `n` actions (a FixedLearner anywhere below has `n` entries) -/
+  fits : B.σ → Nat → Prop
+  /-- it holds the kwargs of a prediction (a Corral below has predicted at least once) -/
+  ready : B.σ → Prop
+  /-- the feedback (action, reward, probability) is acceptable: every Corral at or below this learner
+  is handed a reward in [0,1] and a non-zero probability — THE FORCED HYPOTHESIS of nesting -/
+  accepts : B.σ → Act → Rat → Rat → Prop
+  predict_ok : ∀ s actions, inv s → actions ≠ [] → actions.Nodup → fits s actions.length →
+    ∃ s' a p, B.predict s actions = .ok (s', a, p) ∧ inv s' ∧ ready s' ∧ a ∈ actions ∧ 0 < p ∧ (∀ n, fits s n → fits s' n)
+  learn_ok : ∀ s a r p, inv s → ready s → accepts s a r p →
+    ∃ s', B.learn s a r p = .ok s' ∧ inv s' ∧ (∀ n, fits s n → fits s' n)
+
+def leafLaws (fl : Rat → Rat) : (leafBase fl).Laws where
+  inv := fun s => s.L.kind.Inv
+  fits := fun s n => Fits s.L.kind.arity n
+  ready := fun _ => True
+  accepts := fun _ _ _ _ => True
+  predict_ok := by
+    intro s actions hinv hne hnd hfit
+    obtain ⟨i, p, pmf, hp, _, _, hi, _, hpos⟩ := Learner.predict_ok (s.val s.k) s.L actions hinv hne hnd hfit
+    refine ⟨{ s with L := { s.L with rng := next s.L.rng }, k := s.k + 1 }, actions[i], p, ?_, hinv, trivial,
+      List.getElem_mem hi, hpos, fun n h => h⟩
+    simp [leafBase, hp, List.getElem?_eq_getElem hi]
+  learn_ok := by
+    intro s a r p hinv _ _
+    obtain ⟨L', hl, hi, har⟩ := Learner.learn_ok fl s.L a r hinv
+    refine ⟨{ s with L := L' }, by simp [leafBase, hl], hi, ?_⟩
+    intro n h; simpa [har] using h
+
+/-- zip-wise acceptance of the feedback by the base learners -/
+def allAccept {B : Base} (h : B.Laws) : List B.σ → List (Act × Rat × Rat) → Prop
+  | s :: ss, (a, r, p) :: fs => h.accepts s a r p ∧ allAccept h ss fs
+  | _, _ => True
+
+theorem predictAll_ok {B : Base} (h : B.Laws) (actions : List Act) (hne : actions ≠ []) (hnd : actions.Nodup) :
+    ∀ ss : List B.σ, (∀ s ∈ ss, h.inv s) → (∀ s ∈ ss, h.fits s actions.length) →
+      ∃ ss' as ps, predictAll B ss actions = .ok (ss', as, ps) ∧ (∀ s ∈ ss', h.inv s) ∧ (∀ s ∈ ss', h.ready s) ∧
+        ss'.length = ss.length ∧ as.length = ss.length ∧ ps.length = ss.length ∧ (∀ a ∈ as, a ∈ actions) ∧
+        (∀ n, (∀ s ∈ ss, h.fits s n) → ∀ s ∈ ss', h.fits s n) := by
+  intro ss
+  induction ss with
+  | nil => intro _ _; exact ⟨[], [], [], rfl, by simp, by simp, rfl, rfl, rfl, by simp, by simp⟩
+  | cons s ss ih =>
+    intro hinv hfit
+    obtain ⟨s', a, p, hp, hi, hr, ha, _, hf⟩ := h.predict_ok s actions (hinv s (by simp)) hne hnd (hfit s (by simp))
+    obtain ⟨ss', as, ps, hps, i1, i2, i3, i4, i5, i6, i7⟩ := ih (fun t ht => hinv t (by simp [ht])) (fun t ht => hfit t (by simp [ht]))
+    refine ⟨s' :: ss', a :: as, p :: ps, by simp [predictAll, hp, hps], ?_, ?_, by simp [i3], by simp [i4], by simp [i5], ?_, ?_⟩
+    · intro t ht; rcases List.mem_cons.mp ht with rfl | ht; exacts [hi, i1 t ht]
+    · intro t ht; rcases List.mem_cons.mp ht with rfl | ht; exacts [hr, i2 t ht]
+    · intro b hb; rcases List.mem_cons.mp hb with rfl | hb; exacts [ha, i6 b hb]
+    · intro n hn t ht
+      rcases List.mem_cons.mp ht with rfl | ht
+      · exact hf n (hn s (by simp))
+      · exact i7 n (fun u hu => hn u (by simp [hu])) t ht
+
+theorem learnAll_ok {B : Base} (h : B.Laws) : ∀ (ss : List B.σ) (fs : List (Act × Rat × Rat)),
+    (∀ s ∈ ss, h.inv s) → (∀ s ∈ ss, h.ready s) → allAccept h ss fs →
+      ∃ ss', learnAll B ss fs = .ok ss' ∧ (∀ s ∈ ss', h.inv s) ∧ ss'.length = ss.length ∧
+        (∀ n, (∀ s ∈ ss, h.fits s n) → ∀ s ∈ ss', h.fits s n) := by
+  intro ss
+  induction ss with
+  | nil => intro fs _ _ _; exact ⟨[], by cases fs <;> simp [learnAll], by simp, rfl, by simp⟩
+  | cons s ss ih =>
+    intro fs hinv hready hacc
+    cases fs with
+    | nil => exact ⟨s :: ss, by simp [learnAll], hinv, rfl, fun n hn => hn⟩
+    | cons f fs =>
+      obtain ⟨a, r, p⟩ := f
+      obtain ⟨ha, hrest⟩ := hacc
+      obtain ⟨s', hl, hi, hf⟩ := h.learn_ok s a r p (hinv s (by simp)) (hready s (by simp)) ha
+      obtain ⟨ss', hls, i1, i2, i3⟩ := ih fs (fun t ht => hinv t (by simp [ht])) (fun t ht => hready t (by simp [ht])) hrest
+      refine ⟨s' :: ss', by simp [learnAll, hl, hls], ?_, by simp [i2], ?_⟩
+      · intro t ht; rcases List.mem_cons.mp ht with rfl | ht; exacts [hi, i1 t ht]
+      · intro n hn t ht
+        rcases List.mem_cons.mp ht with rfl | ht
+        · exact hf n (hn s (by simp))
+        · exact i3 n (fun u hu => hn u (by simp [hu])) t ht
+
+/-- **Corral over valid base learners is a valid base learner** -/
+def corralLaws (fl : Rat → Rat) {B : Base} (h : B.Laws) : (corralOver fl B).Laws where
+  inv := fun s => s.c.Inv ∧ s.bases.length = s.c.ps.length ∧ ∀ b ∈ s.bases, h.inv b
+  fits := fun s n => ∀ b ∈ s.bases, h.fits b n
+  ready := fun s => s.lastActs.length = s.c.ps.length ∧ ∀ b ∈ s.bases, h.ready b
+  accepts := fun s a r p =>
+    0 ≤ misguide fl s.mis r ∧ misguide fl s.mis r ≤ 1 ∧ p ≠ 0 ∧
+      allAccept h s.bases (corralFeedback s.c.importance s.lastActs s.lastProbs a (misguide fl s.mis r) p)
+  predict_ok := by
+    intro s actions ⟨hc, hlen, hb⟩ hne hnd hfit
+    obtain ⟨ss', as, ps, hps, i1, i2, i3, i4, _, i6, i7⟩ := predictAll_ok h actions hne hnd s.bases hb hfit
+    obtain ⟨i, p, hp, _, hi, _, hpos⟩ := Corral.predict_ok s.c actions as hc hnd (by rw [i4, hlen]) i6
+    refine ⟨{ s with c := { s.c with rng := next s.c.rng }, lastActs := as, lastProbs := ps, bases := ss' }, actions[i], p, ?_,
+      ⟨{ hc with }, by simp [i3, hlen], i1⟩, ⟨by simp [i4, hlen], i2⟩, List.getElem_mem hi, hpos, fun n hn => i7 n hn⟩
+    simp [corralOver, hps, hp, List.getElem?_eq_getElem hi]
+  learn_ok := by
+    intro s a r p ⟨hc, hlen, hb⟩ ⟨hla, hrb⟩ ⟨hr0, hr1, hp, hacc⟩
+    obtain ⟨ss', hls, i1, i2, i3⟩ := learnAll_ok h s.bases _ hb hrb hacc
+    obtain ⟨c', hcl, hci, hcl'⟩ := Corral.learn_ok s.c s.lastActs a (misguide fl s.mis r) p hc hla hr0 hr1 hp
+    refine ⟨{ s with c := c', bases := ss' }, ?_, ⟨hci, by simp [i2, hlen, hcl'], i1⟩, fun n hn => i3 n hn⟩
+    simp [corralOver, hr0, hr1, hp, hls, hcl]
+
+def sumLaws {B1 B2 : Base} (h1 : B1.Laws) (h2 : B2.Laws) : (sumBase B1 B2).Laws where
+  inv := fun s => match s with | .inl s => h1.inv s | .inr s => h2.inv s
+  fits := fun s n => match s with | .inl s => h1.fits s n | .inr s => h2.fits s n
+  ready := fun s => match s with | .inl s => h1.ready s | .inr s => h2.ready s
+  accepts := fun s a r p => match s with | .inl s => h1.accepts s a r p | .inr s => h2.accepts s a r p
+  predict_ok := by
+    intro s actions hinv hne hnd hfit
+    cases s with
+    | inl s =>
+      obtain ⟨s', a, p, hp, i1, i2, i3, i4, i5⟩ := h1.predict_ok s actions hinv hne hnd hfit
+      exact ⟨.inl s', a, p, by simp [sumBase, hp], i1, i2, i3, i4, i5⟩
+    | inr s =>
+      obtain ⟨s', a, p, hp, i1, i2, i3, i4, i5⟩ := h2.predict_ok s actions hinv hne hnd hfit
+      exact ⟨.inr s', a, p, by simp [sumBase, hp], i1, i2, i3, i4, i5⟩
+  learn_ok := by
+    intro s a r p hinv hready hacc
+    cases s with
+    | inl s =>
+      obtain ⟨s', hl, i1, i2⟩ := h1.learn_ok s a r p hinv hready hacc
+      exact ⟨.inl s', by simp [sumBase, hl], i1, i2⟩
+    | inr s =>
+      obtain ⟨s', hl, i1, i2⟩ := h2.learn_ok s a r p hinv hready hacc
+      exact ⟨.inr s', by simp [sumBase, hl], i1, i2⟩
+
+/-- the guarantees at every nesting depth -/
+def towerLaws (fl : Rat → Rat) : (n : Nat) → (tower fl n).Laws
+  | 0 => leafLaws fl
+  | n + 1 => sumLaws (leafLaws fl) (corralLaws fl (towerLaws fl n))
+
+/-- importance-weighted feedback is not bounded by 1: reward 1 at probability 1/2 reaches the base
+learner that chose the played action as 2, and a Corral rejects it -/
+theorem importance_feedback_unbounded :
+    corralFeedback true [0] [1] 0 1 (1 / 2) = [(0, 2, 1)] ∧
+      ∀ (c : Corral) (bacts : List Act) (a : Act) (p : Rat), c.learn bacts a 2 p = .error .assertion := by
+  constructor
+  · simp [corralFeedback]
+  · intro c bacts a p
+    simp [Corral.learn, Corral.learnWith]
+
+theorem maxOf_ge_init (m : Rat) (xs : List Rat) : m ≤ maxOf m xs := by
+  induction xs generalizing m with
+  | nil => simp [maxOf]
+  | cons x xs ih =>
+    simp only [maxOf]
+    by_cases h : m < x
+    · simp only [h, if_true]; have := ih x; linarith
+    · simp only [h, if_false]; exact ih m
+
+theorem maxOf_ge (m : Rat) (xs : List Rat) : ∀ x ∈ xs, x ≤ maxOf m xs := by
+  induction xs generalizing m with
+  | nil => simp
+  | cons y ys ih =>
+    intro x hx
+    simp only [maxOf]
+    rcases List.mem_cons.mp hx with rfl | hx
+    · by_cases h : m < x
+      · simp only [h, if_true]; exact maxOf_ge_init x ys
+      · simp only [h, if_false]; have := maxOf_ge_init m ys; have h := not_lt.mp h; linarith
+    · exact ih _ x hx
+
+/-- epsilon-greedy puts `(1-ε)/k + ε/n` on each of the `k` greedy (maximal-value) actions and `ε/n`
+on every other one -/
+theorem Eps.pmf_shape (st : Eps) (actions : List Act) (hne : actions ≠ []) :
+    ∃ (M : Rat) (k : Nat), (∀ a ∈ actions, st.q a ≤ M) ∧ (∃ a ∈ actions, st.q a = M) ∧
+      k = (actions.filter (fun a => decide (st.q a = M))).length ∧ 0 < k ∧
+      st.pmf actions = actions.map (fun a =>
+        if st.q a = M then (1 - st.eps) / (k : Rat) + st.eps / (actions.length : Rat) else st.eps / (actions.length : Rat)) := by
+  obtain ⟨a0, rest, rfl⟩ := List.exists_cons_of_ne_nil hne
+  set M := maxOf (st.q a0) (rest.map st.q) with hM
+  have hmem : ∃ a ∈ a0 :: rest, st.q a = M := by
+    rcases maxOf_mem (st.q a0) (rest.map st.q) with h | h
+    · exact ⟨a0, by simp, h.symm⟩
+    · obtain ⟨b, hb, hbv⟩ := List.mem_map.mp h
+      exact ⟨b, by simp [hb], hbv⟩
+  have hfl : ((a0 :: rest).map st.q).filter (fun q => decide (q = M)) = ((a0 :: rest).filter (fun a => decide (st.q a = M))).map st.q := by
+    rw [List.filter_map]; rfl
+  refine ⟨M, ((a0 :: rest).filter (fun a => decide (st.q a = M))).length, ?_, hmem, rfl, ?_, ?_⟩
+  · intro a ha
+    rcases List.mem_cons.mp ha with rfl | ha
+    · exact maxOf_ge_init _ _
+    · exact maxOf_ge _ _ _ (List.mem_map.mpr ⟨a, ha, rfl⟩)
+  · obtain ⟨a, ha, hq⟩ := hmem
+    exact List.length_pos_of_mem (a := a) (by simp [List.mem_filter, ha, hq])
+  · simp only [Eps.pmf, epsPmfVals, List.map_cons, ← hM]
+    have hk : ((st.q a0 :: rest.map st.q).filter (fun q => decide (q = M))).length
+        = ((a0 :: rest).filter (fun a => decide (st.q a = M))).length := by
+      have := congrArg List.length hfl
+      simpa using this
+    rw [hk]
+    have key : ∀ a : Act,
+        1 / (((a0 :: rest).map st.q).length : Rat) * st.eps +
+          (if st.q a = M then 1 / (((a0 :: rest).filter (fun a => decide (st.q a = M))).length : Rat) else 0) * (1 - st.eps)
+        = if st.q a = M then (1 - st.eps) / (((a0 :: rest).filter (fun a => decide (st.q a = M))).length : Rat) + st.eps / ((a0 :: rest).length : Rat)
+          else st.eps / ((a0 :: rest).length : Rat) := by
+      intro a
+      rw [List.length_map]
+      split <;> ring
+    refine congrArg₂ List.cons (key a0) ?_
+    rw [List.map_map]
+    exact List.map_congr_left (fun a _ => key a)
+
+/-- UCB1 initialisation: while an offered action has never been observed, exactly the never-observed
+actions carry probability (uniformly), whatever the index values -/
+theorem Ucb.pmf_never_first (val : Act → Rat) (st : Ucb) (actions : List Act) (hnd : actions.Nodup)
+    (h : ∃ a ∈ actions, dhas st.m a = false) :
+    st.pmf val actions = .ok (actions.map (fun a =>
+      if dhas st.m a = false then 1 / ((actions.filter (fun a => !dhas st.m a)).length : Rat) else 0)) := by
+  unfold Ucb.pmf
+  have hnever : actions.filter (fun a => !dhas st.m a) ≠ [] := by
+    obtain ⟨a, ha, hq⟩ := h
+    intro he
+    have : a ∈ actions.filter (fun a => !dhas st.m a) := by simp [List.mem_filter, ha, hq]
+    rw [he] at this; simp at this
+  rw [if_pos hnever, distinct_of_nodup _ (hnd.filter _)]
+  congr 1
+  simp only [uniformOn]
+  apply List.map_congr_left
+  intro a ha
+  by_cases hq : dhas st.m a = false
+  · simp [List.mem_filter, ha, hq]
+  · simp [List.mem_filter, hq]
+
+open Coba.C05 (next)
+
+/-! ### Misguided wrappers and PMFInfoPredictor -/
+
+/-- `MisguidedLearner.learn`: one wrapper (shifter, scaler) around a learner teaches the wrapped
+learner `shifter + scaler*reward`, nothing else changes -/
+theorem Learner.learn_misguided (fl : Rat → Rat) (L : Learner) (sh sc : Rat) (a : Act) (r : Rat) :
+    ({ L with mis := (sh, sc) :: L.mis }).learn fl a r =
+      (match L.learn fl a (fl (sh + fl (sc * r))) with
+       | .ok L' => .ok { L' with mis := (sh, sc) :: L'.mis }
+       | .error e => .error e) := by
+  cases hk : L.kind with
+  | eps st => simp [Learner.learn, hk, misguide]
+  | ucb st =>
+    simp only [Learner.learn, hk, misguide]
+    cases st.learn fl a (misguide fl L.mis (fl (sh + fl (sc * r)))) <;> rfl
+  | fixed p => simp [Learner.learn, hk]
+  | random => simp [Learner.learn, hk]
+
+/-- `MisguidedLearner.predict/score` delegate: the wrappers do not influence predictions -/
+theorem Learner.predict_misguided (val : Act → Rat) (L : Learner) (m : List (Rat × Rat)) (actions : List Act) :
+    ({ L with mis := m }).predict val actions =
+      (match L.predict val actions with
+       | .ok (L', i, p, pmf) => .ok ({ L' with mis := m }, i, p, pmf)
+       | .error e => .error e) := by
+  cases hk : L.kind with
+  | random =>
+    simp only [Learner.predict, hk]
+    cases liftRng (Coba.C05.choicew L.rng actions.length none) with
+    | error e => rfl
+    | ok v => obtain ⟨s', i, w⟩ := v; rfl
+  | eps st =>
+    simp only [Learner.predict, hk, Kind.pmf]
+    cases liftRng (Coba.C05.choicew L.rng actions.length (some (st.pmf actions))) with
+    | error e => rfl
+    | ok v => obtain ⟨s', i, w⟩ := v; rfl
+  | ucb st =>
+    simp only [Learner.predict, hk, Kind.pmf]
+    cases st.pmf val actions with
+    | error e => rfl
+    | ok pmf =>
+      simp only []
+      cases liftRng (Coba.C05.choicew L.rng actions.length (some pmf)) with
+      | error e => rfl
+      | ok v => obtain ⟨s', i, w⟩ := v; rfl
+  | fixed p =>
+    simp only [Learner.predict, hk, Kind.pmf]
+    cases liftRng (Coba.C05.choicew L.rng actions.length (some p)) with
+    | error e => rfl
+    | ok v => obtain ⟨s', i, w⟩ := v; rfl
+
+theorem Learner.score_misguided (val : Act → Rat) (L : Learner) (m : List (Rat × Rat)) (actions : List Act) (a : Act) :
+    ({ L with mis := m }).score val actions a = L.score val actions a := by
+  cases hk : L.kind <;> simp [Learner.score, hk]
+
+/-- `PMFInfoPredictor.score` indexes the same mixture pmf `predict` draws from -/
+theorem Corral.score_eq (c : Corral) (actions bacts : List Act) (a : Act) (ha : a ∈ actions) :
+    ∃ p, c.score actions bacts a = .ok p ∧ (corralPmf c.pbars bacts actions)[actions.idxOf a]? = some p := by
+  have hidx : actions.idxOf a < (corralPmf c.pbars bacts actions).length := by
+    simp only [corralPmf, List.length_map]; exact List.idxOf_lt_length_of_mem ha
+  exact ⟨_, by simp [Corral.score, ha, List.getElem?_eq_getElem hidx], List.getElem?_eq_getElem hidx⟩
+
+/-- termination on a sub-carrier `D` of `F` (the doubles inside the rationals): `mid` maps `D` into
+`D` and stays in the bracket, `rank` is strictly monotone on `D` -/
+theorem bisect_halts_on {F α} [LinearOrder F] (mid : F → F → F) (done : α → Bool) (probe : F → Option α) (tooBig : α → Bool)
+    (D : F → Prop) (rank : F → Nat) (hrank : ∀ x y, D x → D y → x < y → rank x < rank y)
+    (hmid : ∀ l r, D l → D r → l ≤ r → D (mid l r) ∧ l ≤ mid l r ∧ mid l r ≤ r) (fuel : Nat) :
+    ∀ (l r : F) (cur : α), D l → D r → l ≤ r → rank r - rank l < fuel → (bisect mid done probe tooBig fuel l r cur).2 = true := by
+  induction fuel with
+  | zero => intro l r cur _ _ _ h; omega
+  | succ n ih =>
+    intro l r cur hl hr hlr hfuel
+    simp only [bisect]
+    split
+    · rfl
+    · split
+      · rfl
+      · rename_i hx
+        have hx' : ¬ (mid l r = l) ∧ ¬ (mid l r = r) := ⟨fun h => hx (Or.inl h), fun h => hx (Or.inr h)⟩
+        obtain ⟨hd, h1, h2⟩ := hmid l r hl hr hlr
+        have rl := hrank _ _ hl hd (lt_of_le_of_ne h1 (Ne.symm hx'.1))
+        have rr := hrank _ _ hd hr (lt_of_le_of_ne h2 hx'.2)
+        split
+        · exact ih l _ cur hl hd h1 (by omega)
+        · split
+          · exact ih l _ cur hl hd h1 (by omega)
+          · exact ih _ r _ hd hr h2 (by omega)
+
+theorem minOf_le_maxOf (m : Rat) (xs : List Rat) : minOf m xs ≤ maxOf m xs :=
+  le_trans (minOf_le_init m xs) (maxOf_ge_init m xs)
+
+/-- the float-faithful `_log_barrier_omd`: whatever `fl` is, the weights it returns are
+`fl(w / total)` of an `update(λ)` that is defined: every (rounded) denominator at λ is positive -/
+theorem omdF_from_probed (fl : Rat → Rat) (fuel : Nat) (ps etas losses : List Rat) (ws : List Rat) (h : Bool)
+    (hne : losses ≠ []) (hres : omdF fl fuel ps etas losses = some (ws, h)) :
+    ∃ lam cur, omdRawF fl ps etas losses lam = some cur ∧ ws = cur.map (fun p => fl (p / pySum fl cur)) := by
+  cases losses with
+  | nil => exact absurd rfl hne
+  | cons l0 ls =>
+    unfold omdF at hres
+    cases hlo : omdRawF fl ps etas (l0 :: ls) (minOf l0 ls) with
+    | none => simp [hlo] at hres
+    | some cur =>
+      simp only [hlo, Option.some.injEq, Prod.mk.injEq] at hres
+      have := bisect_inv (fun l r => fl (fl (l + r) / 2)) (fun cur => rounds1 (pySum fl cur)) (omdRawF fl ps etas (l0 :: ls))
+        (fun xs => decide (1 < pySum fl xs)) fuel (minOf l0 ls) (maxOf l0 ls) cur hlo
+      exact ⟨_, _, this, hres.1.symm⟩
+
+/-- … and on the doubles `D` (closed under the rounded midpoint, which stays in the bracket; `rank`
+= position among the doubles) the loop leaves by its own exits within `rank(max ℓ) - rank(min ℓ) + 1`
+iterations -/
+theorem omdF_halts (fl : Rat → Rat) (fuel : Nat) (ps etas : List Rat) (l0 : Rat) (ls : List Rat)
+    (D : Rat → Prop) (rank : Rat → Nat) (hrank : ∀ x y, D x → D y → x < y → rank x < rank y)
+    (hmid : ∀ l r, D l → D r → l ≤ r → D (fl (fl (l + r) / 2)) ∧ l ≤ fl (fl (l + r) / 2) ∧ fl (fl (l + r) / 2) ≤ r)
+    (hlo : D (minOf l0 ls)) (hhi : D (maxOf l0 ls)) (hfuel : rank (maxOf l0 ls) - rank (minOf l0 ls) < fuel) :
+    ∀ ws h, omdF fl fuel ps etas (l0 :: ls) = some (ws, h) → h = true := by
+  intro ws hh hres
+  unfold omdF at hres
+  cases h : omdRawF fl ps etas (l0 :: ls) (minOf l0 ls) with
+  | none => simp [h] at hres
+  | some cur =>
+    have := bisect_halts_on (fun l r => fl (fl (l + r) / 2)) (fun cur => rounds1 (pySum fl cur)) (omdRawF fl ps etas (l0 :: ls))
+      (fun xs => decide (1 < pySum fl xs)) D rank hrank hmid fuel (minOf l0 ls) (maxOf l0 ls) cur hlo hhi (minOf_le_maxOf l0 ls) hfuel
+    simp only [h, Option.some.injEq, Prod.mk.injEq] at hres
+    rw [← hres.2, this]
 
 end Coba.C16
